@@ -67,8 +67,9 @@ macro_rules! impl_blake {
                 state.extend_from_slice(&t.1.to_le_bytes());
                 Obs { pos, compressed: bits / 8, content: content[..pos].to_vec(), state }
             }
-            // 2^32 resp. 2^64 bits: the carry from t.0 into t.1
-            const BOUNDARIES: &'static [u128] = &[(1u128 << $w) / ($bs * 8)];
+            // 2^32 resp. 2^64 bits: the carry from t.0 into t.1 (high word 0 -> 1), and the second
+            // carry (high word 1 -> 2: an odd high word before the carry)
+            const BOUNDARIES: &'static [u128] = &[(1u128 << $w) / ($bs * 8), 2 * ((1u128 << $w) / ($bs * 8))];
             fn enter(&mut self, blocks: u128) {
                 let (h, _, _, _) = self.verif_get_state();
                 let bits = blocks * $bs * 8;
@@ -94,8 +95,8 @@ macro_rules! impl_groestl {
                 state.extend_from_slice(&bc.to_le_bytes());
                 Obs { pos, compressed: bc as u128 * $bs, content: content[..pos].to_vec(), state }
             }
-            // the block count needs a second, third, fifth byte
-            const BOUNDARIES: &'static [u128] = &[1 << 8, 1 << 16, 1 << 32];
+            // the block count needs a second, third, ... eighth byte
+            const BOUNDARIES: &'static [u128] = &[1 << 8, 1 << 16, 1 << 32, 1 << 24, 1 << 40, 1 << 48, 1 << 56];
             fn enter(&mut self, blocks: u128) {
                 let (cv, _, _, _) = self.verif_get_state();
                 self.verif_set_state(cv, blocks as u64, &[]);
@@ -125,8 +126,8 @@ macro_rules! impl_jh {
                     state,
                 }
             }
-            // 2^32 bits and 2^32 bytes
-            const BOUNDARIES: &'static [u128] = &[1 << 23, 1 << 26];
+            // 2^32 bits, 2^32 bytes, 2^40 bytes
+            const BOUNDARIES: &'static [u128] = &[1 << 23, 1 << 26, 1 << 34];
             fn enter(&mut self, blocks: u128) {
                 let (cv, _, _, _) = self.verif_get_state();
                 self.verif_set_state(cv, (blocks * 64) as usize, &[]);
@@ -154,8 +155,8 @@ macro_rules! impl_skein {
                 state.extend_from_slice(&t.1.to_le_bytes());
                 Obs { pos, compressed: t.0 as u128, content: content[..pos].to_vec(), state }
             }
-            // 2^32 bytes in the tweak position
-            const BOUNDARIES: &'static [u128] = &[(1u128 << 32) / $bs];
+            // 2^32, 2^33, 2^40 bytes in the tweak position
+            const BOUNDARIES: &'static [u128] = &[(1u128 << 32) / $bs, (1u128 << 33) / $bs, (1u128 << 40) / $bs];
             fn enter(&mut self, blocks: u128) {
                 let (x, _, _, _) = self.verif_get_state();
                 // message type, FIRST cleared (blocks > 0)
@@ -399,7 +400,7 @@ fn run_history<T: H>(name: &str, ops: &[Op]) -> Ran {
 /// misplaced, lost or repeated byte changes the string; rendered for Coq as `HG k len a b`, which
 /// keeps the case files small), the rest structured / random literals
 fn content(rng: &mut Rng, n: usize) -> Vec<u8> {
-    match rng.below(8) {
+    match if n >= LARGE_PIECE { 7 } else { rng.below(8) } {
         0 => rng.bytes(n),
         1 => {
             let mut v = vec![0u8; n];
@@ -440,15 +441,21 @@ fn pos_after(len: usize, bs: usize, lazy: bool) -> usize {
     }
 }
 
-const CLASSES: [&str; 14] = [
+const CLASSES: [&str; 16] = [
     "0", "1", "bs-1", "bs", "bs+1", "2bs", "3bs+7", "fill", "fill-1", "fill+1", "fill+bs", "fill+2bs", "small", "multi",
+    "8..40 blocks", "~300 blocks",
 ];
+/// pieces of at least this many bytes are always arithmetic progressions (`HG` in the Coq case: a few bytes
+/// instead of a literal of tens of kilobytes)
+const LARGE_PIECE: usize = 6 * 128;
 
 /// a piece length aimed at the buffer boundaries; `len` = bytes absorbed so far by the slot
 fn piece_len(rng: &mut Rng, bs: usize, lazy: bool, len: usize, hist: &mut BTreeMap<&'static str, u64>) -> usize {
     let pos = pos_after(len, bs, lazy);
     let fill = bs - pos; // completes the buffer exactly (lazy: leaves one full block pending)
-    let c = rng.below(CLASSES.len() as u64) as usize;
+    // the two large classes (runs of many whole blocks taken from one update slice) are rarer: 5 % and 1.5 %
+    let w = rng.below(1000);
+    let c = if w < 15 { 15 } else if w < 65 { 14 } else { rng.below(14) as usize };
     *hist.entry(CLASSES[c]).or_insert(0) += 1;
     match c {
         0 => 0,
@@ -464,7 +471,11 @@ fn piece_len(rng: &mut Rng, bs: usize, lazy: bool, len: usize, hist: &mut BTreeM
         10 => fill + bs,
         11 => fill + 2 * bs,
         12 => rng.below(bs as u64 + 2) as usize,
-        _ => rng.range(bs as u64, 5 * bs as u64) as usize,
+        13 => rng.range(bs as u64, 5 * bs as u64) as usize,
+        // 8..40 whole blocks and a remainder aimed at the boundaries (from the current fill level)
+        14 => fill + rng.range(8, 40) as usize * bs + [0usize, 0, 1, bs - 1][rng.below(4) as usize] + rng.below(2) as usize * rng.below(bs as u64) as usize,
+        // about 300 blocks: more than 255 blocks in one call
+        _ => rng.range(296, 304) as usize * bs + [0usize, fill, fill + 1, bs - 1][rng.below(4) as usize],
     }
 }
 
@@ -499,6 +510,12 @@ fn directed(rng: &mut Rng, bs: usize, lazy: bool) -> Vec<History> {
         (bs - 1, 1, 0),
         (3 * bs, 0, 0),
         (bs + 1, 2 * bs - 1, 0),
+        // many whole blocks taken directly from one update slice: 8, 17, 256 and 300 blocks
+        (0, 8 * bs, 1),
+        (1, 17 * bs - 1, bs),
+        (bs / 2, 17 * bs, bs / 2),
+        (0, 256 * bs, 0),
+        (bs - 1, 300 * bs + 2, 5),
     ] {
         v.push(History { stream: "partition", ops: vec![u(rng, 0, a), u(rng, 0, b), u(rng, 0, c), Op::Finalize(0)] });
     }
@@ -705,9 +722,18 @@ struct Acc {
     samples: Vec<String>,
 }
 
-fn do_type<T: H>(name: &str, rng: &mut Rng, count: usize, maxops: usize, acc: &mut Acc) {
+fn do_type<T: H>(name: &str, rng: &mut Rng, count: usize, maxops: usize, thin: usize, rot: usize, acc: &mut Acc) {
     let (bs, lazy) = (T::BS, T::LAZY);
     let mut hs = directed(rng, bs, lazy);
+    // --thin N: every N-th directed history only, rotating with the seed and the type (small runs in a
+    // second build profile)
+    if thin > 1 {
+        let mut k = 0usize;
+        hs.retain(|_| {
+            k += 1;
+            (k + rot) % thin == 0
+        });
+    }
     let mut pieces = BTreeMap::new();
     while hs.len() < count {
         hs.push(random_history(rng, bs, lazy, maxops, &mut pieces));
@@ -783,6 +809,16 @@ fn boundary_partitions<T: H>(name: &str, rng: &mut Rng, failures: &mut Vec<Strin
                     .ok()
                 };
                 let whole = run(&[]);
+                // the entered state and the tail are inside the format limits of every family: a panic of the
+                // single-call run is a failure by itself (it would otherwise equal the panics of the partitions)
+                *runs += 1;
+                if whole.is_none() && failures.len() < 6 {
+                    failures.push(format!(
+                        "{{\"failure\":{},\"case\":{{\"type\":{},\"entered_blocks\":\"{}\",\"boundary_blocks\":\"{}\",\"tail_len\":{},\"cuts\":[],\"outcome\":\"panic\",\"tail\":{}}}}}",
+                        jstr(&format!("{}: from a state {} block(s) before counter boundary {} (inside the format limits) a single update of {} bytes followed by finalize panics", name, k, b, tail.len())),
+                        jstr(name), b - k, b, tail.len(), jstr(&hex(&tail))
+                    ));
+                }
                 // an instance whose counters are beyond the boundary (high word / upper bytes non-zero)
                 // is reset, or finalised in place and reset, and reused: it must behave like a new one
                 if r == 1 {
@@ -805,8 +841,8 @@ fn boundary_partitions<T: H>(name: &str, rng: &mut Rng, failures: &mut Vec<Strin
                             Digest::finalize(h).to_vec()
                         }))
                         .ok();
-                        let fresh = Some(T::digest(&tail[..]).to_vec());
-                        if reused != fresh && failures.len() < 6 {
+                        let fresh = catch_unwind(AssertUnwindSafe(|| T::digest(&tail[..]).to_vec())).ok();
+                        if (reused != fresh || reused.is_none()) && failures.len() < 6 {
                             failures.push(format!(
                                 "{{\"failure\":{},\"case\":{{\"type\":{},\"entered_blocks\":\"{}\",\"mode\":{},\"tail_len\":{},\"tail\":{}}}}}",
                                 jstr(&format!("{}: an instance entered {} blocks into a message (beyond counter boundary {}), then {} and reused, does not return the digest a new instance returns", name, b + 1 + k, b, ["reset", "finalised in place (finalize_fixed_reset)", "finalize_reset"][mode as usize])),
@@ -860,7 +896,11 @@ fn main() {
     let count = args.u64("count", 60) as usize;
     let maxops = args.u64("maxops", 12) as usize;
     let only = args.str("only", "");
+    let thin = args.u64("thin", 1) as usize;
     let mut rng = Rng::new(seed);
+    let mut tix = 0usize;
+    let mut size_checks = 0u64;
+    let mut size_fail: Vec<String> = Vec::new();
     let mut acc = Acc {
         coq: vec![],
         json: vec![],
@@ -879,38 +919,53 @@ fn main() {
     let mut bfail: Vec<String> = Vec::new();
     let mut bruns = 0u64;
     macro_rules! go {
-        ($name:expr, $t:ty) => {
+        ($name:expr, $t:ty, $out:expr) => {
+            tix += 1;
             if only.is_empty() || only == $name {
+                // the output size of the type (the type-level constant and the length actually returned)
+                // against the size the type's name promises
+                size_checks += 1;
+                let declared = <$t as Digest>::output_size();
+                let returned = catch_unwind(AssertUnwindSafe(|| <$t as Digest>::digest(b"abc").len())).ok();
+                let dynsize = digest::DynDigest::output_size(&<$t>::default());
+                if declared != $out || returned != Some($out) || dynsize != $out {
+                    size_fail.push(format!(
+                        "{{\"failure\":{},\"case\":{{\"type\":{},\"expected_output_bytes\":{},\"Digest::output_size\":{},\"DynDigest::output_size\":{},\"len of Digest::digest(b\\\"abc\\\")\":{}}}}}",
+                        jstr(&format!("{}: output size is not the {} bytes of the variant", $name, $out)),
+                        jstr($name), $out, declared, dynsize,
+                        match returned { Some(n) => n.to_string(), None => "\"panic\"".to_string() }
+                    ));
+                }
                 // every type gets its own stream derived from the one seed
                 let mut r = Rng::new(rng.u64());
-                do_type::<$t>($name, &mut r, count, maxops, &mut acc);
+                do_type::<$t>($name, &mut r, count, maxops, thin, tix + seed as usize, &mut acc);
                 boundary_partitions::<$t>($name, &mut r, &mut bfail, &mut bruns);
             } else {
                 let _ = rng.u64();
             }
         };
     }
-    go!("Blake224", Blake224);
-    go!("Blake256", Blake256);
-    go!("Blake384", Blake384);
-    go!("Blake512", Blake512);
-    go!("Groestl224", Groestl224);
-    go!("Groestl256", Groestl256);
-    go!("Groestl384", Groestl384);
-    go!("Groestl512", Groestl512);
-    go!("Jh224", Jh224);
-    go!("Jh256", Jh256);
-    go!("Jh384", Jh384);
-    go!("Jh512", Jh512);
-    go!("Skein256<U32>", Skein256<U32>);
-    go!("Skein256<U64>", Skein256<U64>);
-    go!("Skein256<U20>", Skein256<U20>);
-    go!("Skein512<U32>", Skein512<U32>);
-    go!("Skein512<U64>", Skein512<U64>);
-    go!("Skein512<U100>", Skein512<U100>);
-    go!("Skein1024<U32>", Skein1024<U32>);
-    go!("Skein1024<U64>", Skein1024<U64>);
-    go!("Skein1024<U128>", Skein1024<U128>);
+    go!("Blake224", Blake224, 28usize);
+    go!("Blake256", Blake256, 32usize);
+    go!("Blake384", Blake384, 48usize);
+    go!("Blake512", Blake512, 64usize);
+    go!("Groestl224", Groestl224, 28usize);
+    go!("Groestl256", Groestl256, 32usize);
+    go!("Groestl384", Groestl384, 48usize);
+    go!("Groestl512", Groestl512, 64usize);
+    go!("Jh224", Jh224, 28usize);
+    go!("Jh256", Jh256, 32usize);
+    go!("Jh384", Jh384, 48usize);
+    go!("Jh512", Jh512, 64usize);
+    go!("Skein256<U32>", Skein256<U32>, 32usize);
+    go!("Skein256<U64>", Skein256<U64>, 64usize);
+    go!("Skein256<U20>", Skein256<U20>, 20usize);
+    go!("Skein512<U32>", Skein512<U32>, 32usize);
+    go!("Skein512<U64>", Skein512<U64>, 64usize);
+    go!("Skein512<U100>", Skein512<U100>, 100usize);
+    go!("Skein1024<U32>", Skein1024<U32>, 32usize);
+    go!("Skein1024<U64>", Skein1024<U64>, 64usize);
+    go!("Skein1024<U128>", Skein1024<U128>, 128usize);
 
     write_shards(
         &out,
@@ -922,6 +977,7 @@ fn main() {
     );
     std::fs::write(format!("{}/cases.json", out), format!("[{}]", acc.json.join(",\n"))).unwrap();
 
+    acc.direct.extend(size_fail.into_iter());
     acc.direct.extend(bfail.into_iter());
     let kv = |m: &BTreeMap<&'static str, u64>| -> String {
         let v: Vec<String> = m.iter().map(|(k, v)| format!("{}:{}", jstr(k), v)).collect();
@@ -929,7 +985,7 @@ fn main() {
     };
     let pt: Vec<String> = acc.per_type.iter().map(|(k, v)| format!("{}:{}", jstr(k), v)).collect();
     println!(
-        "{{\"evaluations\":{},\"distinct_nontrivial\":{},\"direct_failures\":[{}],\"samples\":[{}],\"histories_per_type\":{{{}}},\"streams\":{},\"op_mix\":{},\"random_piece_classes\":{},\"digests_checked_against_one_shot\":{},\"state_differences_without_digest_difference\":{},\"longest_message_bytes\":{},\"max_ops_random\":{},\"counter_boundary_partition_runs\":{}}}",
+        "{{\"evaluations\":{},\"distinct_nontrivial\":{},\"direct_failures\":[{}],\"samples\":[{}],\"histories_per_type\":{{{}}},\"streams\":{},\"op_mix\":{},\"random_piece_classes\":{},\"digests_checked_against_one_shot\":{},\"state_differences_without_digest_difference\":{},\"longest_message_bytes\":{},\"max_ops_random\":{},\"counter_boundary_partition_runs\":{},\"counter_boundaries_per_family\":{{\"blake\":2,\"groestl\":7,\"jh\":3,\"skein\":3}},\"output_sizes_checked\":{},\"profile\":{},\"directed_thinning\":{}}}",
         acc.coq.len(),
         acc.distinct_nontrivial,
         acc.direct.join(","),
@@ -942,6 +998,9 @@ fn main() {
         acc.state_only,
         acc.maxmsg,
         maxops,
-        bruns
+        bruns,
+        size_checks,
+        jstr(if cfg!(debug_assertions) { "debug" } else { "release" }),
+        thin
     );
 }
